@@ -255,9 +255,15 @@ func (n *node) RouteSendEvent(from gen.PID, token gen.Ref, options gen.MessageOp
 
 	consumers := n.targetManager.GetConsumersForTarget(message.Event)
 	remote := make(map[gen.Atom]bool)
+	// a subscriber holding both a link and a monitor on the event is listed twice
+	delivered := make(map[gen.PID]bool, len(consumers))
 	// local delivery
 	for _, pid := range consumers {
 		if pid.Node == n.name {
+			if delivered[pid] {
+				continue
+			}
+			delivered[pid] = true
 			n.sendEventMessage(from, pid, options.Priority, message)
 			continue
 		}
